@@ -438,6 +438,63 @@ def gen_C19(rng, n=2500):
     return "\n".join(L) + "\n"
 
 
+def gen_C18(rng, nops=400):
+    """request/recycle histories against bare memory managers"""
+    L = ["init"]
+    style = rng.choice(["orig", "array", "heap", "malloc", "free", "array", "orig"])
+    gran = rng.choice([4, 8])
+    minsize = 1 if style == "free" else rng.choice([5, 5, 4, 6])
+    L.append("mm new M %s %d %d" % (style, gran, minsize))
+    live = []
+    nid = 0
+    mode = rng.choice(["mixed", "bursts", "fifo", "lifo", "sawtooth"])
+    maxsz = 15 if style == "free" else rng.choice([12, 40, 200, 200, 1000])
+
+    def size():
+        r = rng.random()
+        if r < 0.4:
+            return rng.randint(minsize, min(maxsz, minsize + 6))
+        if r < 0.8:
+            return rng.randint(minsize, min(maxsz, 40))
+        return rng.randint(minsize, maxsz)
+
+    for step in range(nops):
+        if mode == "bursts":
+            want_req = (step // 25) % 2 == 0
+        elif mode == "sawtooth":
+            want_req = (step % 60) < 40
+        else:
+            want_req = rng.random() < 0.55
+        if want_req or not live:
+            L.append("mm req M %d" % size())
+            live.append(nid)
+            nid += 1
+        else:
+            if mode == "fifo":
+                k = 0
+            elif mode == "lifo":
+                k = len(live) - 1
+            else:
+                # often recycle neighbours of the previous victim (coalescing)
+                k = rng.randrange(len(live))
+                if rng.random() < 0.4 and len(live) > 2:
+                    k = min(len(live) - 1, max(0, k + rng.choice([-1, 1])))
+            L.append("mm rec M %d" % live.pop(k))
+        if step % 7 == 6:
+            L.append("mm check M")
+    L.append("mm check M")
+    # drain in random order, then allocate again (reuse of coalesced space)
+    rng.shuffle(live)
+    for i in live[: len(live) * 2 // 3]:
+        L.append("mm rec M %d" % i)
+    L.append("mm check M")
+    for _ in range(20):
+        L.append("mm req M %d" % size())
+    L.append("mm check M")
+    L.append("mm del M")
+    return "\n".join(L) + "\n"
+
+
 GENS = {
     "C01": gen_C01,
     "C03": gen_C03,
